@@ -195,7 +195,7 @@ func init() {
 	engine.Register(&engine.Prop{
 		ID: "C02",
 		Shards: func(th bool) []string {
-			s := []string{"silent"}
+			s := []string{"silent", "bytes"}
 			for i := range c02Sigma {
 				s = append(s, fmt.Sprintf("bare:%d", i))
 				for ti := range c02Tags {
@@ -216,7 +216,7 @@ func init() {
 			return s
 		},
 		Run:  c02Run,
-		Rule: "family A: every string over {< % > \\ = # a \" { \\n é} up to length L bare, and s1·TAG·s2 around each of 4 generated tags (|s1|<=3,|s2|<=2), compared with a left-to-right reference scanner that knows only the two escapes; templates whose reference scan meets a live <% that is not the generated tag are outside the grammar (totality only). Family B: <%= \"S\" %> / <%= `S` %> / let-bound / helper-argument string literals for every body S over {a \\ \" % > < # \\n é } space `} up to length L that the reference tokeniser closes at its own quote; expected = HTML-escape(denotation). Family C: every sequence of <=3 items from {text, output tag, output of a template function that has literal text and an explicit return, 24 silent constructs (expression/let/assign/if/for/comment/line-comment/fn statements incl. values that are HTML)} in 12 placements (top, if, else, for, fn body, helper block, for+if, iterator loop ending in break, slice loop ending in continue, map loop ending in break, a helper's block in a loop body ending in break / continue); expected = the same sequence with silent items deleted. Family D: comment tags whose body is any string of <=3 (4) symbols over {a \" ' # ` < % { } ( \\n space \\ = let 1.2.3} not containing the closing delimiter, spaced and tight, at top level and inside a block: the tag contributes nothing and the template continues after its %>. Non-trivial: contains an escape-relevant byte next to a boundary / a silent item.",
+		Rule: "family A: every string over {< % > \\ = # a \" { \\n é} up to length L bare, and s1·TAG·s2 around each of 4 generated tags (|s1|<=3,|s2|<=2), compared with a left-to-right reference scanner that knows only the two escapes; templates whose reference scan meets a live <% that is not the generated tag are outside the grammar (totality only). Family B: <%= \"S\" %> / <%= `S` %> / let-bound / helper-argument string literals for every body S over {a \\ \" % > < # \\n é } space `} up to length L that the reference tokeniser closes at its own quote; expected = HTML-escape(denotation). Family C: every sequence of <=3 items from {text, output tag, output of a template function that has literal text and an explicit return, 24 silent constructs (expression/let/assign/if/for/comment/line-comment/fn statements incl. values that are HTML)} in 12 placements (top, if, else, for, fn body, helper block, for+if, iterator loop ending in break, slice loop ending in continue, map loop ending in break, a helper's block in a loop body ending in break / continue); expected = the same sequence with silent items deleted. Family E: every sequence of <=3 (4) pieces from {a, CRLF, CR, LF, TAB, space, NUL, 0xFF, VT+FF, é, an output tag, a silent tag, string literals containing CRLF / CR}: copied byte for byte; templates differing only in surrounding white space rendered alternately with the cache on. Family D: comment tags whose body is any string of <=3 (4) symbols over {a \" ' # ` < % { } ( \\n space \\ = let 1.2.3} not containing the closing delimiter, spaced and tight, at top level and inside a block: the tag contributes nothing and the template continues after its %>. Non-trivial: contains an escape-relevant byte next to a boundary / a silent item.",
 		Bound: func(th bool) string {
 			if th {
 				return "A: bare |s|<=6, around |s1|<=3 |s2|<=2, core alphabet {\\ < % a} bare |s|<=10 and before/around a tag |s|<=8; B: |S|<=5; C: sequences <=3"
@@ -235,6 +235,49 @@ var c02CommentSigma = []string{"a", `"`, "'", "#", "`", "<", "%", "{", "}", "(",
 func c02Run(t *engine.T, shard string) {
 	parts := strings.Split(shard, ":")
 	switch parts[0] {
+	case "bytes":
+		// family E: literal text is copied byte for byte - carriage returns, every other control byte, any encoding,
+		// outside tags, between tags and inside string literals; also when templates that differ only in surrounding
+		// white space are rendered one after the other with the cache on
+		pieces := []string{"a", "\r\n", "\r", "\n", "\t", " ", "\x00", "\xff", "\x0b\x0c", "é", `<%= "v" %>`, `<% let q = 1 %>`, "<%= \"x\r\ny\" %>", "<%= `p\r\nq\r` %>"}
+		denote := map[string]string{`<%= "v" %>`: "v", `<% let q = 1 %>`: "", "<%= \"x\r\ny\" %>": "x\r\ny", "<%= `p\r\nq\r` %>": "p\r\nq\r"}
+		L := 3
+		if t.Thorough {
+			L = 4
+		}
+		c02Strings(L, pieces, func(src string) {
+			// c02Strings concatenates pieces; recover the expectation by replacing the tags with what they denote
+			want := src
+			for tag, d := range denote {
+				want = strings.Replace(want, tag, d, -1)
+			}
+			t.Case("bytes "+q(src), strings.ContainsAny(src, "\r\x00\xff"), func() (string, *engine.Fail) {
+				out, err := Render(src, plush.NewContext())
+				if err != nil || out != want {
+					return "", engine.Failf("mismatch", "expected %q, got %q / %v", want, out, err)
+				}
+				return "match", nil
+			})
+		})
+		for _, base := range []string{"x", "a<%= 1 %>b", "<% let q = 1 %><%= q %>"} {
+			for _, v := range [][2]string{{" ", ""}, {"", " "}, {"\n", "\n"}, {"  ", "\n"}, {"\t", ""}, {"", "\r\n"}} {
+				base, v := base, v
+				t.Case("bytes cached whitespace variants "+q(v[0]+base+v[1]), true, func() (string, *engine.Fail) {
+					plush.VerifCacheReset()
+					plush.CacheEnabled = true
+					defer func() { plush.CacheEnabled = false; plush.VerifCacheReset() }()
+					inner := strings.NewReplacer("<%= 1 %>", "1", "<% let q = 1 %>", "", "<%= q %>", "1").Replace(base)
+					for _, src := range []string{base, v[0] + base + v[1], base, v[0] + base + v[1]} {
+						want := strings.Replace(src, base, inner, 1)
+						out, err := plush.Render(src, plush.NewContext())
+						if err != nil || out != want {
+							return "", engine.Failf("mismatch", "cache on: %q rendered %q / %v, expected %q", src, out, err, want)
+						}
+					}
+					return "match", nil
+				})
+			}
+		}
 	case "comment":
 		var i int
 		fmt.Sscan(parts[1], &i)
